@@ -166,6 +166,8 @@ pub enum Fx {
     Forget(u32),
     /// `pg::join(group, [myself])`
     Join(String),
+    /// spawn child `c` from inside the callback: `spawn_linked_instant(None, child, args, myself)`
+    SpawnChild(usize),
 }
 
 #[derive(Clone, Debug, PartialEq, Eq)]
@@ -193,6 +195,7 @@ impl std::fmt::Display for Seg {
                 Fx::Reply(k, v) => write!(f, "reply:{k}:{v} ")?,
                 Fx::Forget(k) => write!(f, "forget:{k} ")?,
                 Fx::Join(g) => write!(f, "join:{g} ")?,
+                Fx::SpawnChild(c) => write!(f, "spawnchild:{c} ")?,
             }
         }
         match self.term {
@@ -218,6 +221,7 @@ impl Seg {
                 ["reply", k, v] => Fx::Reply(k.parse().ok()?, v.parse().ok()?),
                 ["forget", k] => Fx::Forget(k.parse().ok()?),
                 ["join", g] => Fx::Join(g.to_string()),
+                ["spawnchild", c] => Fx::SpawnChild(c.parse().ok()?),
                 _ => return None,
             });
         }
@@ -248,6 +252,21 @@ pub struct Shared {
     pub pids: Mutex<HashMap<u64, usize>>,
     /// prefix that makes registry names / group names unique per case (`c<case>-`)
     pub tag: Mutex<String>,
+    /// what a callback needs to spawn a child itself (`Fx::SpawnChild`): the task controller of the
+    /// case, the thread-local spawner / adapter flavour; the children born inside callbacks since the
+    /// last `collect`
+    pub ctl: Mutex<Option<Arc<Controller>>>,
+    pub spawner: Mutex<Option<ractor::thread_local::ThreadLocalActorSpawner>>,
+    pub adapter: std::sync::atomic::AtomicBool,
+    pub born: Mutex<Vec<Born>>,
+}
+
+/// A child spawned from inside a callback with `spawn_linked_instant`.
+pub struct Born {
+    pub idx: usize,
+    pub sup: usize,
+    pub inst: InstHandle,
+    pub task: Option<Arc<TaskCtl>>,
 }
 
 impl Shared {
@@ -366,6 +385,47 @@ pub async fn run_cb(sh: &Arc<Shared>, a: usize, cb: &'static str, arg: String) -
                     Fx::Join(g) => {
                         ractor::pg::join(sh.real(g), vec![me.get_cell()]);
                         verif::note(format!("fx join {g}"));
+                    }
+                    Fx::SpawnChild(c) => {
+                        let c = *c;
+                        {
+                            let mut s = sh.slots.lock().unwrap();
+                            while s.len() <= c {
+                                s.push(Slot::default());
+                            }
+                        }
+                        let ctl = sh.ctl.lock().unwrap().clone().expect("controller");
+                        let before = ctl.len();
+                        let spawner = sh.spawner.lock().unwrap().clone();
+                        let res = if let Some(spawner) = spawner.clone() {
+                            use ractor::thread_local::ThreadLocalActor;
+                            let args = (c, sh.clone());
+                            if sh.adapter.load(std::sync::atomic::Ordering::SeqCst) {
+                                <ScriptedSend as ThreadLocalActor>::spawn_linked_instant(None, args, me.get_cell(), spawner)
+                            } else {
+                                ScriptedLocal::spawn_linked_instant(None, args, me.get_cell(), spawner)
+                            }
+                        } else {
+                            ractor::ActorRuntime::<Scripted>::spawn_linked_instant(
+                                None,
+                                Scripted { idx: c, sh: sh.clone() },
+                                (),
+                                me.get_cell(),
+                            )
+                        };
+                        match res {
+                            Ok((r, h)) => {
+                                sh.pids.lock().unwrap().insert(r.get_id().pid(), c);
+                                sh.slots.lock().unwrap()[c].me = Some(r);
+                                let task = if ctl.len() == before + 1 { ctl.task(before) } else { None };
+                                sh.born.lock().unwrap().push(Born { idx: c, sup: a, inst: h, task });
+                                verif::note(format!(
+                                    "fx spawnchild {c}{}",
+                                    if spawner.is_some() { " local" } else { "" }
+                                ));
+                            }
+                            Err(e) => verif::note(format!("fx spawnchild {c} Err({})", spawn_err_str(&e))),
+                        }
                     }
                 }
             }
@@ -784,8 +844,8 @@ impl World {
         if !st.is_done() {
             let before = self.eng.ntasks();
             self.eng.poll_task(&st).await;
-            if self.eng.ntasks() == before + 1 {
-                self.actors[a].task = self.eng.ctl.task(before);
+            if let Some(t) = self.new_loop_task(before) {
+                self.actors[a].task = Some(t);
             }
         }
         if st.is_done() {
@@ -924,8 +984,8 @@ impl World {
             let before = self.eng.ntasks();
             self.eng.poll_task(&ot).await;
             if ot.is_done() {
-                if self.eng.ntasks() == before + 1 {
-                    self.actors[a].task = self.eng.ctl.task(before);
+                if let Some(t) = self.new_loop_task(before) {
+                    self.actors[a].task = Some(t);
                 }
                 self.finish_instant(a);
             }
@@ -948,8 +1008,8 @@ impl World {
         if !st.is_done() {
             let before = self.eng.ntasks();
             self.eng.poll_task(&st).await;
-            if self.eng.ntasks() == before + 1 {
-                self.actors[a].task = self.eng.ctl.task(before);
+            if let Some(t) = self.new_loop_task(before) {
+                self.actors[a].task = Some(t);
             }
         }
         if st.is_done() {
@@ -988,6 +1048,30 @@ impl World {
             self.eng.settle_done(&st).await;
         }
         self.finish_instant(a);
+    }
+
+    /// The loop task created since the controller had `before` tasks: the new task that is not the start
+    /// task of a child some callback spawned meanwhile (`Fx::SpawnChild`).
+    fn new_loop_task(&self, before: usize) -> Option<Arc<TaskCtl>> {
+        let born: Vec<usize> = self
+            .sh
+            .born
+            .lock()
+            .unwrap()
+            .iter()
+            .filter_map(|b| b.task.as_ref().map(|t| t.id))
+            .collect();
+        (before..self.eng.ntasks())
+            .filter_map(|i| self.eng.ctl.task(i))
+            .find(|t| !born.contains(&t.id))
+    }
+
+    /// Publish to the callbacks what they need to spawn children themselves (after every engine reset /
+    /// change of flavour).
+    pub fn sync_shared(&self) {
+        *self.sh.ctl.lock().unwrap() = Some(self.eng.ctl.clone());
+        *self.sh.spawner.lock().unwrap() = self.local.clone();
+        self.sh.adapter.store(self.adapter, std::sync::atomic::Ordering::SeqCst);
     }
 
     /// Would `a.link(p)` close a supervision cycle? (`p` is `a` or has `a` among its ancestors,
@@ -1143,13 +1227,13 @@ impl World {
         match hand.poll_once() {
             None => {}
             Some(Ok((_r, h))) => {
-                assert_eq!(self.eng.ntasks(), before + 1, "spawn must create exactly one task");
                 self.actors[a].handle = Some(h);
-                self.actors[a].task = self.eng.ctl.task(before);
+                self.actors[a].task = self.new_loop_task(before);
+                assert!(self.actors[a].task.is_some(), "spawn must create the loop task");
                 verif::note("ret Ok".into());
             }
             Some(Err(e)) => {
-                assert_eq!(self.eng.ntasks(), before);
+                assert!(self.new_loop_task(before).is_none());
                 verif::note(format!("ret Err({})", spawn_err_str(&e)));
             }
         }
@@ -1325,6 +1409,16 @@ impl World {
     /// Collect everything observable after one op: the ordered notes (plus join results of tasks
     /// that just finished), every actor's status / supervisor / number of children, the runnable set.
     pub fn collect(&mut self) -> String {
+        // children born inside callbacks during this op get their slots
+        for b in self.sh.born.lock().unwrap().drain(..) {
+            assert_eq!(b.idx, self.actors.len(), "a callback-spawned child must take the next slot");
+            self.actors.push(ActorSlot {
+                inst: Some(b.inst),
+                inst_task: b.task,
+                want_sup: Some(b.sup),
+                ..Default::default()
+            });
+        }
         let mut ev: Vec<String> = verif::take_notes().iter().map(|n| self.fmt_note(n)).collect();
         // join handles of tasks that are gone now
         for (a, s) in self.actors.iter_mut().enumerate() {
@@ -1534,6 +1628,7 @@ impl World {
         self.waits.clear();
         self.calls.clear();
         self.sh.slots.lock().unwrap().clear();
+        self.sh.born.lock().unwrap().clear();
         self.actors.clear();
         self.names.clear();
         self.groups.clear();
